@@ -50,6 +50,51 @@ theorem fieldsEq_iff_eq (m : FV) (a b : Fields) (hk : a.map (·.1) = b.map (·.1
 theorem fieldsEq_refl (m : FV) (a : Fields) (hn : (a.map (·.1)).Nodup) : fieldsEq m a a = true :=
   (fieldsEq_iff_eq m a a rfl hn).2 rfl
 
+/-! ### one field set to another value -/
+
+/-- `setattr(instance, f, w)` on a field the instance has -/
+def setField (a : Fields) (f : String) (w : FV) : Fields := a.map (fun e => if e.1 == f then (e.1, w) else e)
+
+theorem setField_keys (a : Fields) (f : String) (w : FV) : (setField a f w).map (·.1) = a.map (·.1) := by
+  simp only [setField, List.map_map]
+  apply List.map_congr_left
+  intro e _
+  simp only [Function.comp]
+  split <;> rfl
+
+theorem lookup_setField (a : Fields) (f : String) (v w : FV) (h : lookup a f = some v) : lookup (setField a f w) f = some w := by
+  induction a with
+  | nil => simp [lookup] at h
+  | cons x xs ih =>
+    obtain ⟨g, u⟩ := x
+    by_cases e : g = f
+    · subst e
+      simp [setField, lookup]
+    · have hb : (g == f) = false := by simpa using e
+      rw [lookup_cons_ne g f u xs e] at h
+      have := ih h
+      simp only [setField, List.map_cons, hb] at this ⊢
+      simpa [lookup_cons_ne g f u _ e] using this
+
+/-- one field set to ANY other value - however closely related: another letter case, a blank, a leading zero, the elements of a
+list in another order - is a different instance, for `__eq__` from either side -/
+theorem fieldsEq_setField_ne (m : FV) (a : Fields) (f : String) (v w : FV) (hn : (a.map (·.1)).Nodup)
+    (hv : lookup a f = some v) (hne : w ≠ v) :
+    fieldsEq m a (setField a f w) = false ∧ fieldsEq m (setField a f w) a = false := by
+  have hk := setField_keys a f w
+  have hd : a ≠ setField a f w := by
+    intro e
+    have := lookup_setField a f v w hv
+    rw [← e, hv] at this
+    exact hne (Option.some.inj this).symm
+  constructor
+  · cases h : fieldsEq m a (setField a f w)
+    · rfl
+    · exact absurd ((fieldsEq_iff_eq m a _ hk.symm hn).1 h) hd
+  · cases h : fieldsEq m (setField a f w) a
+    · rfl
+    · exact absurd ((fieldsEq_iff_eq m _ a hk (hk ▸ hn)).1 h).symm hd
+
 /-! ### JSON values -/
 
 theorem udEq_refl (a : J) : udEq a a = true := by simp [udEq]
